@@ -718,7 +718,7 @@ func tail(t []ev, n int) []ev {
 	return t
 }
 
-// entryRound: 2-3 clients enter one NEW key by SubscribeOrCreate and make their first syncs at (almost) the same moment,
+// entryRound: 2-4 clients enter one NEW key by SubscribeOrCreate and make their first syncs at (almost) the same moment,
 // some of them after local work; then they go on syncing on their own. Exactly one of them may end up as the creator.
 // Events as in the other rounds (one trace, validated with a configuration in which every client enters by
 // SubscribeOrCreate); what every client holds is read from its counter (two bits per operation).
@@ -731,7 +731,7 @@ func entryRound(r int, seed int64, rng *rand.Rand) (trace []ev, ncalls int, viol
 	defer st.Close()
 	st.CreateCollection("col")
 	var mu sync.Mutex
-	n := 2 + rng.Intn(2)
+	n := 2 + rng.Intn(3)
 	key := fmt.Sprintf("entry%d", r)
 	cls := map[int]*stack.Client{}
 	dts := map[int]*stack.DT{}
